@@ -93,6 +93,55 @@ def run(ctx):
     diff_tie(ctx, "for-simple", exe, ["simple"], "simple", gen_simple(ctx), oracle=simple_oracle, describe=describe_simple,
              nontrivial=lambda c, t: any(c[i + 1] - c[i] > c[i + 2] for i in range(0, len(c), 3)),
              bucket=lambda c: "simple maxbits=%d" % max((c[i + 1] - c[i]).bit_length() for i in range(0, len(c), 3)))
+    # ---- strided form parallel_for(first, last, step, f): Index arithmetic of the trip count, at the boundaries of the index types
+    LIM = {0: (-2 ** 31, 2 ** 31 - 1), 1: (0, 2 ** 32 - 1), 2: (0, 2 ** 64 - 1), 3: (-2 ** 63, 2 ** 63 - 1)}
+    scases = []
+    rng = ctx.rng
+    for _ in range(ctx.scale(400, 8000)):
+        ty = rng.randrange(4)
+        lo, hi = LIM[ty]
+        if ty in (0, 3):                     # signed: last - first must be representable
+            first = rng.choice([0, 1, -5, lo, lo + 1, hi // 2, hi - 100000, rng.randint(lo, hi)])
+            first = max(first, lo)
+            last = rng.choice([hi, hi - 1, first + 1, first + 2, first + 1000, rng.randint(first, hi)])
+            last = min(last, first + hi, hi)
+        else:
+            first = rng.choice([0, 0, 1, 5, hi - 100000, hi // 2, rng.randint(0, hi)])
+            last = rng.choice([hi, hi, hi - 1, hi - 7, first + 1, first + 3, first + 1000, rng.randint(first, hi)])
+            last = min(last, hi)
+        if last <= first:
+            last = min(first + rng.choice([1, 2, 17]), hi)
+        dist = last - first
+        n = rng.choice([1, 1, 2, 3, 4, 5, 7, 64, 1000, 5000])
+        step = max(1, dist // n + rng.choice([-1, 0, 0, 1]))
+        if dist // step > 20000:
+            step = dist // 20000 + 1
+        step = min(step, hi)
+        scases.append([ty, rng.randrange(5), rng.choice([1, 2, 4, 8]), first, last, step])
+    ctx.rules.append("strided: parallel_for(first,last,step,f) for int / unsigned / size_t / long long with first,last at the ends of the type (last = max, max-1; first = 0, min, max-100000), "
+                     "step = distance/n +- 1 (n = 1..5000, at most 20000 calls), five partitioner choices, 1-8 threads; number of calls, smallest and largest index and the sum of the indices "
+                     "compared with ForModel.strided_trip / strided_index")
+    rc, lines, err = ctx.run_driver(exe, ["strided"], scases, timeout=900)
+    model = ctx.modelrun("strided", [c[3:6] for c in scases])
+    sbad = 0
+    for c, ln, mo in zip(scases, lines + ["MISSING"] * (len(scases) - len(lines)), model):
+        ctx.count(("strided",) + tuple(c), True, "strided type=%d" % c[0])
+        what = "parallel_for<%s>(first=%d, last=%d, step=%d), partitioner %d, %d threads" % (["int", "unsigned", "size_t", "long long"][c[0]], c[3], c[4], c[5], c[1], c[2])
+        toks = ln.split()
+        if len(toks) != 4 or not all(t.lstrip("-").isdigit() for t in toks):
+            sbad += 1
+            ctx.add(Finding("violation", "strided-hang-or-crash", what + ": " + ln[-60:], {"tie": "strided", "case": c}))
+            continue
+        got = [int(t) for t in toks]
+        if got != mo:
+            sbad += 1
+            if sbad <= 3:
+                # the model's answer is what the property demands (theorem strided_loop_indices): a different set of calls is a violation with this input
+                ctx.add(Finding("violation", "strided-wrong-indices", "%s: the body was called %d times (indices %d..%d, sum %d); every index first+k*step below last exactly once means %d calls (indices %d..%d, sum %d)" % (
+                    what, got[0], got[1], got[2], got[3], mo[0], mo[1], mo[2], mo[3]), {"tie": "strided", "case": c}))
+        else:
+            ctx.traces_validated += 1
+    ctx.ties.append({"name": "strided (trip count and indices of parallel_for(first,last,step) vs ForModel)", "cases": len(scases), "disagreements": sbad})
     # ---- proportional split (binary32 arithmetic, Flocq model evaluated inside Coq)
     rng = ctx.rng
     trip = []
@@ -265,6 +314,14 @@ def run(ctx):
 def replay(ctx, rep):
     lib, err = ctx.build_lib("tbb")
     exe, err = ctx.build_driver("drv_for", libs=[lib], opt="-O2")
+    if rep.get("tie") == "strided":
+        c = rep["case"]
+        rc, lines, err = ctx.run_driver(exe, ["strided"], [c], timeout=120)
+        mo = ctx.modelrun("strided", [c[3:6]])[0]
+        print("implementation: calls, smallest, largest, sum =", lines, " model:", mo)
+        if not lines or [int(t) for t in lines[0].split() if t.lstrip("-").isdigit()] != mo:
+            ctx.add(Finding("violation", "strided-wrong-indices", "parallel_for(first=%d,last=%d,step=%d): implementation %s, required %s" % (c[3], c[4], c[5], lines, mo), {"tie": "strided", "case": c}))
+        return
     if rep.get("tie") == "for-oracle":
         rc, lines, err = ctx.run_driver(exe, [rep["mode"]], [rep["case"]], timeout=120)
         print("\n".join(lines))
